@@ -83,6 +83,7 @@ fn c01_case(ctx: &Ctx, st: &mut TState, idx: usize, case: &Case, fresh: bool) {
     let mut b = board_for(case, idx, &mut st.local);
     let turn = ecol(p.turn);
     let rk: Vec<MoveKey> = legal.iter().map(rkey).collect();
+    if idx % 8 == 5 { b.set_turn(turn.opposite()); st.local.inc("positions_queried_with_the_turn_flag_on_the_other_side"); }
     let ems = if fresh { let mut g = MoveGenerator::new(); g.generate_moves(&mut b, turn) } else { st.used_gen().generate_moves(&mut b, turn) };
     let mut ek: Vec<MoveKey> = ems.iter().map(ekey).collect();
     let mut d = diff_movesets(&ek, &rk);
@@ -393,12 +394,13 @@ pub fn c06(o: &Opts) -> i32 {
     let tries = if q { 150_000 } else { 1_500_000 };
     for p in gen::terminal_with_pieces(&mut rt, tries, true) { if seen.insert(p.key()) { ctx.count("stalemates_where_the_stalemated_side_has_pieces", 1); cases.push(Case::setup(p, "stalemate-with-pieces")); } }
     for p in gen::terminal_with_pieces(&mut rt, tries / 4, false) { if seen.insert(p.key()) { cases.push(Case::setup(p, "mate-with-pieces")); } }
+    for p in gen::lone_minor_mates(&mut rt, tries) { if seen.insert(p.key()) { ctx.count("positions_where_a_lone_minor_piece_mates", 1); cases.push(Case::setup(p, "lone-minor-mate")); } }
     shuffle_tail(&mut cases, gen::corpus().len(), o.seed);
     run_pool(&ctx, &cases, 0.97, |ctx, st, i, c| c06_case(ctx, st, i, c, 12));
     ctx.finish(ctx.counter("verdicts_compared") + ctx.counter("annotations_compared") + ctx.counter("game_ending_compared"),
         "pool positions plus mate-rich endings; in-check / checkmate / game_ending verdicts and the check/checkmate/none annotation of every legal move are compared with the reference (attack test on the king; legal-move emptiness of the successor). Every 12th position and every terminal one uses a brand-new generator, the rest a long-lived per-thread generator (mismatches re-asked to a fresh one for classification). distinct_nontrivial = distinct positions with check / ep / rights / promotion / pin / terminal",
         &["game_ending is compared only when the half-move clock is <= 20 and the repetition count < 3 (move-count and repetition draws belong to C16/C17)"],
-        &[("checkmated_positions", if q { 50 } else { 500 }), ("stalemated_positions", if q { 20 } else { 200 }), ("moves_giving_mate", 50), ("discovered_checks", 20), ("positions_double_check", 1), ("promotion_checks", 5), ("positions_with_brand_new_generator", if q { 300 } else { 3000 }), ("stalemates_where_the_stalemated_side_has_pieces", 10), ("verdicts_for_the_side_not_to_move", 1000)])
+        &[("checkmated_positions", if q { 50 } else { 500 }), ("stalemated_positions", if q { 20 } else { 200 }), ("moves_giving_mate", 50), ("discovered_checks", 20), ("positions_double_check", 1), ("promotion_checks", 5), ("positions_with_brand_new_generator", if q { 300 } else { 3000 }), ("stalemates_where_the_stalemated_side_has_pieces", 10), ("verdicts_for_the_side_not_to_move", 1000), ("positions_where_a_lone_minor_piece_mates", 3)])
 }
 
 // ======================================================================================= C13
@@ -502,6 +504,7 @@ pub fn c13(o: &Opts) -> i32 {
     let mut r = Rng::new(o.seed).fork(tag("c13-dense"));
     let mut seen = HashSet::new();
     for _ in 0..if q { 12000 } else { 200000 } { let prof = *r.pick(&[2usize, 2, 4, 3]); let p = gen::random_setup_profile(&mut r, prof); if seen.insert(p.key()) { cases.push(Case::setup(p, "like-piece-dense-setup")); } }
+    { let mut rt = Rng::new(o.seed).fork(tag("c13-minor-mates")); for p in gen::lone_minor_mates(&mut rt, if q { 150_000 } else { 1_000_000 }) { cases.push(Case::setup(p, "lone-minor-mate")); } }
     shuffle_tail(&mut cases, gen::corpus().len(), o.seed);
     run_pool(&ctx, &cases, 0.9, c13_case);
     {
